@@ -93,6 +93,8 @@ static std::string step(const std::string& line) {
   if (op == "section" && w.size() == 2) {
     if (!vh::parse_u64(w[1], u0)) return "bad-op";
     if (!code.is_section_valid(uint32_t(u0)) || u0 > 0xFFFFFFFFull) return answer(Error::kInvalidSection);
+    // restriction of the op language (same in the model): user code never emits into the implicit .addrtab section
+    if (code.section_by_id(uint32_t(u0)) == code.address_table_section()) return answer(Error::kInvalidSection);
     return answer(a->section(code.section_by_id(uint32_t(u0))));
   }
   if (op == "bind" && w.size() == 2) {
